@@ -137,23 +137,6 @@ def fmt (cfg : PCfg) (v e : Rat) : Printed :=
   | .scientific => sciPrinter cfg v e false
   | .latex => sciPrinter cfg v e true
 
-/-! ### rendering (the thin string layer) -/
-
-/-- decimal digits of `m` with `d` decimals: `fixedStr 1234 2 = "12.34"`, `fixedStr (-5) 2 = "-0.05"` -/
-def fixedStr (m : Int) (d : Nat) : String :=
-  let a := m.natAbs
-  let ip := a / 10 ^ d
-  let fp := a % 10 ^ d
-  let fs := toString fp
-  let pad := String.ofList (List.replicate (d - fs.length) '0')
-  (if m < 0 then "-" else "") ++ toString ip ++ (if d = 0 then "" else "." ++ pad ++ fs)
-
-def render (p : Printed) : String :=
-  let pm := if p.latex then "\\pm" else "+/-"
-  let vs := fixedStr p.mantV p.decV
-  let es := if p.errBare then "0" else fixedStr p.mantE p.decE
-  if p.sci then s!"({vs} {pm} {es}) * 10^{p.pow10}" else s!"{vs} {pm} {es}"
-
 /-! ### the property as a decidable predicate -/
 
 /-- the allowance: half a unit plus the 0.05 unit of two-stage rounding -/
